@@ -697,14 +697,22 @@ class DAGRunConcurrentManager(DAGRunManagerLike):
             )
 
             if isinstance(result, Recurrent):
-                self._create_task(
-                    name=f'rec-{node_id}',
-                    coro=self._run_recurrent_subgraph(
-                        node_result=result,
-                        node_id=node_id,
-                        dag=dag,
-                    ),
+                # The subgraph which is already being iterated handles the result itself. The check has to be done
+                # here and not only when the new task starts: by that time the active subgraph may have finished,
+                # and the late task would iterate the subgraph once again.
+                is_active = self._node_storage.exists_active_rec_subgraph(
+                    self.dag.graph.nodes[node_id].get(NodeField.start_node), node_id,
                 )
+
+                if not is_active:
+                    self._create_task(
+                        name=f'rec-{node_id}',
+                        coro=self._run_recurrent_subgraph(
+                            node_result=result,
+                            node_id=node_id,
+                            dag=dag,
+                        ),
+                    )
 
                 # We shouldn't unlock the node's descendants if we have to perform recurrent subgraph.
                 # It has to be this way because the node, which has `Recurrent` result,
